@@ -1,0 +1,91 @@
+//! Verification hook (only compiled with `--cfg graphql_client_verif`): when the environment
+//! variable `GRAPHQL_CLIENT_VERIF_LOG` names a file, every derive invocation appends one line
+//! describing the paths and options the macro built from the attribute, and what generation
+//! returned for them.
+
+use std::io::Write;
+
+fn json_str(s: &str) -> String {
+    let mut out = String::with_capacity(s.len() + 2);
+    out.push('"');
+    for c in s.chars() {
+        match c {
+            '"' => out.push_str("\\\""),
+            '\\' => out.push_str("\\\\"),
+            '\n' => out.push_str("\\n"),
+            '\r' => out.push_str("\\r"),
+            '\t' => out.push_str("\\t"),
+            c if (c as u32) < 0x20 => out.push_str(&format!("\\u{:04x}", c as u32)),
+            c => out.push(c),
+        }
+    }
+    out.push('"');
+    out
+}
+
+pub(crate) fn log_invocation(input: proc_macro::TokenStream) {
+    let log_path = match std::env::var("GRAPHQL_CLIENT_VERIF_LOG") {
+        Ok(path) if !path.is_empty() => path,
+        _ => return,
+    };
+
+    // Generation may panic (e.g. unreadable files); that is the real invocation's business,
+    // the log only records it.
+    let line = std::panic::catch_unwind(std::panic::AssertUnwindSafe(|| describe(input)))
+        .unwrap_or_else(|_| "{\"stage\":\"panic\"}\n".to_owned());
+
+    if let Ok(mut file) = std::fs::OpenOptions::new()
+        .create(true)
+        .append(true)
+        .open(log_path)
+    {
+        let _ = file.write_all(line.as_bytes());
+    }
+}
+
+fn describe(input: proc_macro::TokenStream) -> String {
+    let ast: syn::DeriveInput = match syn::parse2(proc_macro2::TokenStream::from(input)) {
+        Ok(ast) => ast,
+        Err(err) => return format!("{{\"stage\":\"parse\",\"error\":{}}}\n", json_str(&err.to_string())),
+    };
+    let struct_name = ast.ident.to_string();
+    let (query_path, schema_path) = match super::build_query_and_schema_path(&ast) {
+        Ok(paths) => paths,
+        Err(err) => {
+            return format!(
+                "{{\"struct\":{},\"stage\":\"paths\",\"error\":{}}}\n",
+                json_str(&struct_name),
+                json_str(&err.to_string())
+            )
+        }
+    };
+    let options = match super::build_graphql_client_derive_options(&ast, query_path.clone()) {
+        Ok(options) => options,
+        Err(err) => {
+            return format!(
+                "{{\"struct\":{},\"stage\":\"options\",\"error\":{}}}\n",
+                json_str(&struct_name),
+                json_str(&err.to_string())
+            )
+        }
+    };
+    let options_json = options.verif_describe();
+    let (outcome, text) = match graphql_client_codegen::generate_module_token_stream(
+        query_path.clone(),
+        &schema_path,
+        options,
+    ) {
+        Ok(tokens) => ("tokens", tokens.to_string()),
+        Err(err) => ("error", err.to_string()),
+    };
+
+    format!(
+        "{{\"struct\":{},\"stage\":\"generated\",\"query_path\":{},\"schema_path\":{},\"options\":{},\"outcome\":{},\"text\":{}}}\n",
+        json_str(&struct_name),
+        json_str(&query_path.display().to_string()),
+        json_str(&schema_path.display().to_string()),
+        options_json,
+        json_str(outcome),
+        json_str(&text),
+    )
+}
